@@ -93,3 +93,17 @@ META['C01'] = dict(
     note='Trusted: nothing but digest equality; a defect shared by every configuration is invisible (C02). LARGE_PAGES not in the quantifier.',
     technique='differential property-based testing (rapidcheck), n-version equality across configurations',
 )
+
+META['C03'] = dict(
+    text='Model-based generation of API histories: a harness-side model of caches, datasets and VMs (key, epoch, binding, version, batch in flight) decides which generated command is admissible under the documented '
+         'contract and what every returned digest must be; the real objects run under an allocator that fills fresh blocks with garbage, poisons freed ones and reuses big-block addresses. 50 histories (~340 compared digests) '
+         'quick / 1632 thorough. Histories shrink as whole command sequences (rapidcheck + in-process and driver-side ddmin).',
+    note='Trusted: the encoding of the documented contract in the preconditions; the fresh-object digest as oracle (its agreement with the spec is C02).',
+    technique='stateful / model-based property testing (rapidcheck command sequences, sequence shrinking) with fresh-object differential oracle',
+)
+META['C16'] = dict(
+    text='The C03 history generator restricted to secure JIT VMs, with every mmap/mprotect/munmap of the library interposed: a W+X request, a W+X region after any command, or an rwx line in /proc/self/maps over a '
+         'library-owned range is a violation. 50 histories quick (~600 protection changes) / 1632 thorough.',
+    note='Trusted: link-time interposition sees all protection requests of the statically linked library; /proc/self/maps as cross-check at command granularity only.',
+    technique='stateful property testing (rapidcheck command sequences) with an invariant over the interposed page-protection history',
+)
